@@ -198,6 +198,21 @@ func (x *Exec) noteFunc(fn *ssa.Function, intrinsic bool) {
 }
 func (x *Exec) noteRead(p Ptr)  {}
 func (x *Exec) noteWrite(p Ptr) {}
+var gcSizes = types.SizesFor("gc", "amd64")
+
+// elemSize is the size in bytes of one element of type t (1 if unknown).
+func elemSize(t types.Type) int64 {
+	if t == nil {
+		return 1
+	}
+	defer func() { recover() }()
+	if n := gcSizes.Sizeof(t); n > 0 {
+		return n
+	}
+	return 1
+}
+
+// noteAlloc records a single allocation of n bytes (allocation monitor for C16).
 func (x *Exec) noteAlloc(n int64) {
 	if n > x.allocMax {
 		x.allocMax = n
